@@ -4,6 +4,11 @@ set -e
 HERE=$(cd "$(dirname "$0")" && pwd)
 cd "$HERE"
 export PYTHONDONTWRITEBYTECODE=1 PYTHONHASHSEED=0 PYTHONUTF8=1
+# the checks serialise their builds on .build.lock (harness/engine.py); take the same lock, so that a check running at the
+# same time never sees a half-built tree
+if [ -z "$CUV_SETUP_LOCKED" ] && command -v flock >/dev/null 2>&1; then
+  CUV_SETUP_LOCKED=1 exec flock "$HERE/.build.lock" "$0" "$@"
+fi
 /venv/bin/python -B harness/gen_coq.py "${VERIF_REPO:-/repo}" coq/theories/gen
 cd coq
 coq_makefile -f _CoqProject -o Makefile >/dev/null
